@@ -39,9 +39,14 @@ fn fill_markers(cols: u32, lines: u32, sparse: bool) -> Vec<Op> {
             continue;
         }
         ops.push(Op::Api(Call::CursorPosition(Some(y + 1), Some(1))));
-        let t: String = (0..cols)
+        let mut t: String = (0..cols)
             .map(|x| char::from_u32('A' as u32 + ((y * cols + x) % 58)).unwrap())
             .collect();
+        if y == 0 && cols >= 3 {
+            // one double-width character (lead in column 1, placeholder in column 2)
+            let cs: Vec<char> = t.chars().collect();
+            t = format!("{}{}{}", cs[0], '\u{4e2d}', cs[3..].iter().collect::<String>());
+        }
         ops.push(Op::Api(Call::Sgr(vec![31 + (y % 6), 41 + ((y + 2) % 6)])));
         // draw char by char without wrapping at the end
         ops.push(Op::Api(Call::ResetMode(vec![7], true)));
@@ -444,6 +449,30 @@ fn enum_c18(tier: &str, r: &mut Rng) -> Vec<Session> {
         ops.push(api(Call::Reset));
         out.push(sess(format!("c18e{}", w), w, 2, ops));
     }
+    for (i, w) in [4u32, 8, 9, 20, 80].iter().enumerate() {
+        for widen in 0..3 {
+            let mut ops = vec![api(Call::Tab), api(Call::CursorToColumn(Some(*w))), api(Call::Tab)];
+            match widen {
+                0 => ops.push(api(Call::Resize(None, Some(w * 2 + 3)))),
+                1 => ops.push(api(Call::SetMode(vec![3], true))),
+                _ => {
+                    ops.push(api(Call::Resize(None, Some(w + 1))));
+                    ops.push(api(Call::Resize(None, Some(w * 3))));
+                }
+            }
+            for x in [1u32, *w, w + 1, w * 2, 100, 131] {
+                ops.push(api(Call::CursorToColumn(Some(x))));
+                ops.push(api(Call::Tab));
+            }
+            ops.push(api(Call::ClearTabStop(Some(3))));
+            ops.push(api(Call::CursorToColumn(Some(1))));
+            ops.push(api(Call::Tab));
+            ops.push(api(Call::Resize(None, Some(*w))));
+            ops.push(api(Call::CursorToColumn(Some(1))));
+            ops.push(api(Call::Tab));
+            out.push(sess(format!("c18w{}_{}", i, widen), *w, 2, ops));
+        }
+    }
     out
 }
 
@@ -550,12 +579,34 @@ fn enum_c12(tier: &str, r: &mut Rng) -> Vec<Session> {
             core.push(Call::ResetMode(vec![a, b], true));
         }
     }
-    let nstates = counts(tier, 6, 18);
+    let nstates = counts(tier, 9, 18);
     for i in 0..nstates {
         let cols = r.range(2, 8);
         let lines = if i % 6 >= 4 { r.range(3, 5) } else { r.range(2, 5) };
         let mut prefix = fill_markers(cols, lines, i % 2 == 1);
         match i % 6 {
+            0 if i >= 6 => {
+                // DECSCNM on, then cells drawn with SGR 27 (not reverse), dirty set cleared
+                prefix.push(api(Call::SetMode(vec![5], true)));
+                prefix.push(api(Call::Sgr(vec![27])));
+                prefix.push(api(Call::CursorPosition(Some(1), Some(1))));
+                prefix.push(api(Call::Draw("xy".into())));
+                prefix.push(api(Call::ClearDirty));
+            }
+            1 if i >= 6 => {
+                // the cursor is visible although DECTCEM is not in the mode set (DECRC brought it back) ...
+                prefix.push(api(Call::SaveCursor));
+                prefix.push(api(Call::ResetMode(vec![25], true)));
+                prefix.push(api(Call::RestoreCursor));
+            }
+            2 if i >= 6 => {
+                // ... and hidden although it is
+                prefix.push(api(Call::ResetMode(vec![25], true)));
+                prefix.push(api(Call::SaveCursor));
+                prefix.push(api(Call::SetMode(vec![25], true)));
+                prefix.push(api(Call::RestoreCursor));
+                prefix.push(api(Call::ResetMode(vec![5], true)));
+            }
             4 => {
                 // scrolling region with top > 0, origin mode on, cursor away from the region's home
                 prefix.push(api(Call::SetMargins(Some(2), Some(lines))));
